@@ -307,6 +307,37 @@ def unwrap_ok(v):
     return v
 
 
+LITERAL_KINDS = {"Verbatim", "Meta", "Superfluous", "Octal", "HexFixed", "HexBrace", "Special"}
+
+
+def literal_kinds(conds):
+    """The LiteralKind variants compatible with a path's branch conditions on `kind`; None when a test's form is not decoded."""
+    from .common import cond_variant
+    ks = set(LITERAL_KINDS)
+    for c, o in conds:
+        if "kind" not in S.vstr(c):
+            continue
+        cv = cond_variant(c, o)
+        if cv is not None:
+            ks &= {cv[1]}
+            continue
+        if c[0] == "discr" and isinstance(o, tuple) and o[0] == "otherwise":
+            names = dict((dv, n) for n, dv in c[2])
+            ks -= {names.get(v) for v in o[1]}
+            continue
+        if c[0] == "binop" and c[1] in ("Eq", "Ne") and isinstance(o, bool):
+            vs = [x for x in (c[2], c[3]) if x[0] == "adt" and x[2] in LITERAL_KINDS]
+            if len(vs) == 1:
+                eq = o if c[1] == "Eq" else (not o)
+                if eq:
+                    ks &= {vs[0][2]}
+                elif not vs[0][3]:          # a payload-free variant is excluded by !=; one with a payload is not
+                    ks -= {vs[0][2]}
+                continue
+        return None
+    return ks
+
+
 def analyze(ctx, want):
     F = ctx.facts
 
@@ -575,6 +606,14 @@ def analyze(ctx, want):
             elif isinstance(o, bool):
                 verb_yes = o is True
         quirk = bool(is_dot) and is_dot[-1][2] is True and bool(verb) and verb_yes
+        # exactly the verbatim kind: the set of LiteralKind variants that reach this path (a test `kind != Meta` or a
+        # wildcard arm lets escapes such as \x2E through, which denote the character '.', not "any char")
+        kinds = literal_kinds(p.conds)
+        if kinds is not None and is_dot and is_dot[-1][2] is True and "Verbatim" in kinds and kinds != {"Verbatim"} and verb:
+            ob("C08.b", "literal:dot-quirk-only-for-the-verbatim-kind", False, "a '.' literal of kind %s takes the same branch as a verbatim one" % sorted(kinds - {"Verbatim"}), fn.loc())
+            continue
+        if quirk:
+            ob("C08.b", "literal:dot-quirk-only-for-the-verbatim-kind", kinds is None or kinds == {"Verbatim"}, "kinds on the wildcard path: %s" % (sorted(kinds) if kinds is not None else "test form not decoded"), fn.loc())
         if clo[0] != "closure":
             ob("C08.b", "literal:is-a-closure", False, "returns %s" % S.vstr(r)[:80], fn.loc())
             continue
